@@ -384,7 +384,7 @@ class SitesEngine:
                     c = {"op": "commit", "rec": 0}
                     if g.random() < 0.5:
                         counter += 1
-                        c["exts"] = g.choice([{"k": f"v{counter}"}, {"pk": {"n": counter}}, {}])
+                        c["exts"] = g.choice([{"k": f"v{counter}"}, {"pk": {"n": counter}}, {}, {"who": f"Jörg Müller {counter}"}])
                     ops.append(c)
                     ops.append({"op": "create_patch", "rec": 0})
                 elif roll < 0.95:
